@@ -597,6 +597,24 @@ oscore_derive_ctx(coap_context_t *c_context, coap_oscore_conf_t *oscore_conf) {
   return osc_ctx;
 
 error:
+  /*
+   * Release what has been derived here.  Everything taken over from
+   * oscore_conf is still owned by oscore_conf and released by the caller.
+   */
+  if (osc_ctx) {
+    oscore_recipient_ctx_t *rcp_ctx = osc_ctx->recipient_chain;
+
+    while (rcp_ctx) {
+      oscore_recipient_ctx_t *next = rcp_ctx->next_recipient;
+
+      coap_delete_bin_const(rcp_ctx->recipient_key);
+      coap_free_type(COAP_OSCORE_REC, rcp_ctx);
+      rcp_ctx = next;
+    }
+    coap_delete_bin_const(osc_ctx->common_iv);
+  }
+  if (sender_ctx)
+    coap_delete_bin_const(sender_ctx->sender_key);
   coap_free_type(COAP_OSCORE_COM, osc_ctx);
   coap_free_type(COAP_OSCORE_SEN, sender_ctx);
   return NULL;
